@@ -43,7 +43,7 @@ theorem C17_restore (d : Dec ε σ) (caps : Vt.Caps) (saved : τ) (st : St ε σ
      (∀ t, DSys.tcsetattr t ∈ r.log → t = saved) ∧
      (r.res ≠ .blocked → (∀ a ∈ env.exec, a = .ok) → flat r.st.wq = [] →
         ∃ calls pre post, r.log = .sigOff :: calls.map .poll ++ [.sigClose, .tcsetattr saved] ∧
-          handed calls = pre ++ (epilogue caps).flatten ++ post ∧ pre = flat st.wq.clearButLast)) ∧
+          handed calls = pre ++ (epilogue caps).flatten ++ post ∧ pre = flat (framesDrop st).wq)) ∧
     (∀ (makeRaw : τ → τ) (oenv : OpenEnv τ) (s : τ) (log : List (OSys τ)),
         openTty makeRaw oenv = (some s, log) →
           oenv.getattr = some s ∧ log = [.setNonblocking, .isatty, .tcgetattr, .tcsetattr (makeRaw s), .pipes]) ∧
@@ -53,9 +53,9 @@ theorem C17_restore (d : Dec ε σ) (caps : Vt.Caps) (saved : τ) (st : St ε σ
   refine ⟨?_, ?_, ?_⟩
   · simp only [dispose]
     have hc := waitSync_cons d env.polls
-      { st with wq := execMany st.wq.clearButLast (epilogue caps) env.exec } []
+      { framesDrop st with wq := execMany (framesDrop st).wq (epilogue caps) env.exec } []
     generalize waitSync d env.polls
-      { st with wq := execMany st.wq.clearButLast (epilogue caps) env.exec } [] = w at hc
+      { framesDrop st with wq := execMany (framesDrop st).wq (epilogue caps) env.exec } [] = w at hc
     obtain ⟨st3, log, fin⟩ := w
     cases fin with
     | false =>
@@ -72,7 +72,7 @@ theorem C17_restore (d : Dec ε σ) (caps : Vt.Caps) (saved : τ) (st : St ε σ
         simp only [handed, List.nil_append] at e
         simp only at hempty
         rw [hempty, List.append_nil, flat_execMany_ok _ _ _ hok] at e
-        exact ⟨log, flat st.wq.clearButLast, inj, rfl, e, rfl⟩
+        exact ⟨log, flat (framesDrop st).wq, inj, rfl, e, rfl⟩
   · intro makeRaw oenv s log h
     unfold openTty at h
     split at h
